@@ -241,15 +241,16 @@ PROPERTIES = {
     "C13": dict(G_HTTPGEN,
                 overlay={"internal/httpgen/zz_verif_c12_common.go": "harness/c12/c12_common.go",
                          "internal/httpgen/zz_verif_c14.go": "harness/c14/c14_codecs.go",
-                         "internal/httpgen/zz_verif_c13.go": "harness/c13/c13_obligations.go", "internal/httpgen/zz_verif_c13o.go": "harness/c13/c13_oneof_names.go"},
+                         "internal/httpgen/zz_verif_c13.go": "harness/c13/c13_obligations.go", "internal/httpgen/zz_verif_c13o.go": "harness/c13/c13_oneof_names.go", "internal/httpgen/zz_verif_c13e.go": "harness/c13/c13_enum_maps.go"},
                 harnesses=[dict(func="VerifC13ClientImports", reach=["C13/client-imports/decided"], quick=dict(budget=400, parts=8), thorough=dict(budget=1200, parts=16)),
                            dict(func="VerifC13CodecLocals", reach=["C13/codec-locals/decided"], quick=dict(budget=400, parts=8), thorough=dict(budget=1200, parts=16)),
                            dict(func="VerifC13TSRouteConsts", reach=["C13/ts/decided", "C13/ts/path-and-query"], quick=dict(budget=100), thorough=dict(budget=300)),
                            dict(func="VerifC13GoIdentifiers", reach=["C13/idents/decided", "C13/idents/irregular"], quick=dict(budget=400, parts=4), thorough=dict(budget=1200, parts=8)),
                            dict(func="VerifC13OneMarshalerPerType", reach=["C13/marshalers/decided", "C13/marshalers/kf"], quick=dict(budget=200), thorough=dict(budget=600)),
                            dict(func="VerifC13OneofWrapperNames", reach=["C13/oneof-names/decided"], quick=dict(budget=100), thorough=dict(budget=300)),
-                           dict(func="VerifC13PrintfArity", reach=["C13/printf/decided"], quick=dict(budget=200), thorough=dict(budget=600))],
-                bounds_text={"quick": "emission-site obligations, each necessary for the emitted package/module to build: (O6) imports match uses in go-client/go-http files for 1-2 methods x 6 verbs x path variable x query annotation; unused locals/imports in codec files for timestamp_format x5, bytes_encoding x6, empty_behavior x4, int64_encoding x3 x 4 kinds x repeated, at 4 placements, both generators; (O5) duplicate const in a TS route for verb x path variable x query; (O3) client Go identifier = protoc-gen-go identifier over 9 name shapes with symbolic letters/digits; (O1) one MarshalJSON per type for every pair of 5 codec features, both generators; printf arity (verbs = operands) of every emitted fmt.Errorf/Sprintf in the codec files of 9 features"},
+                           dict(func="VerifC13PrintfArity", reach=["C13/printf/decided"], quick=dict(budget=200), thorough=dict(budget=600)),
+                           dict(func="VerifC13EnumMapLiterals", reach=["C13/enum-maps/decided", "C13/enum-maps/custom-value-is-the-proto-name"], quick=dict(budget=200), thorough=dict(budget=600))],
+                bounds_text={"quick": "emission-site obligations, each necessary for the emitted package/module to build: (O6) imports match uses in go-client/go-http files for 1-2 methods x 6 verbs x path variable x query annotation; unused locals/imports in codec files for timestamp_format x5, bytes_encoding x6, empty_behavior x4, int64_encoding x3 x 4 kinds x repeated, at 4 placements, both generators; (O5) duplicate const in a TS route for verb x path variable x query; (O3) client Go identifier = protoc-gen-go identifier over 9 name shapes with symbolic letters/digits; (O1) one MarshalJSON per type for every pair of 5 codec features, both generators; printf arity (verbs = operands) of every emitted fmt.Errorf/Sprintf in the codec files of 9 features; no repeated key in the enum lookup map literals for a 3-value enum with each value un-annotated / custom value / custom value spelled like its proto name, 4 placements, both generators"},
                 assumptions=["the claim is 'these obligations hold', not 'the package compiles': type-level obligations (O2: expressions presupposing singular non-optional Go field types), name-collision obligations (O4) and TypeScript syntax are not covered",
                              "obligations are evaluated on the recorded emission trace (text of the P() calls) by scanners written in the harness"]),
     "C01": E_ROUNDTRIP(
